@@ -494,6 +494,14 @@ impl CodegenContext {
                     segment.pc(),
                     &bytes
                 );
+                // A relocated segment may be pushed out of the address space at its target side as well
+                let target = segment.pc().as_i64() + segment.target_offset();
+                if target < 0 || target + bytes.len() as i64 > 0x10000 {
+                    return Err(Diagnostic::error()
+                        .with_message(format!("segment '{}' is out of range", name))
+                        .with_labels(vec![span.to_label()])
+                        .into());
+                }
                 self.source_map.add(
                     self.current_scope_nx,
                     span,
